@@ -41,6 +41,7 @@ SYS_RULE = ('online-generated scripts against the real system.System + coroutine
 PROPS = {
     'C01': dict(
         modules=['Resonate.Properties.C01'],
+        pin_filter=r'awaitLoops|coroutineCmds|tick|queueShapes',
         tie_filter=r'promise(Select|SelectAll|Search|Insert|Update)|callbackInsert_guard|shape|wiring|uniques',
         harness=[with_monitor(storediff('storediff-promises', PROMISE_KINDS + ['DeleteCallbacks', 'CompleteTasks', 'CreateTasks'], (30, 30), (800, 40), (300, 40)), 'C01'),
                  sysdiff('sysdiff-promises', API_PROMISE, (25, 120), (600, 150), 'C01', ['-routed', '40', '-fail', '15', '-crash', '2'], (200, 150)),
@@ -54,6 +55,7 @@ PROPS = {
     ),
     'C06': dict(
         modules=['Resonate.Properties.C06'],
+        pin_filter=r'awaitLoops|coroutineCmds|tick|queueShapes',
         tie_filter=r'promise(Insert|Update)|callback|taskInsert|taskCompleteByRootId|shape|wiring|uniques',
         harness=[sysdiff('sysdiff-crashes', ['CreatePromise', 'CreatePromiseAndTask', 'CompletePromise', 'CreateCallback', 'CreateSubscription', 'ReadPromise', 'ClaimTask', 'CompleteTask'],
                          (25, 150), (600, 200), 'C01,C05,C08,C07', ['-routed', '50', '-fail', '15', '-crash', '6', '-smallcfg', '-known', 'F5'], (200, 150)),
@@ -72,6 +74,7 @@ PROPS = {
     ),
     'C07': dict(
         modules=['Resonate.Properties.C07'],
+        pin_filter=r'awaitLoops|coroutineCmds|tick|queueShapes|taskGuards',
         tie_filter=r'task|shape|wiring|uniques',
         harness=[sysdiff('sysdiff-tasks', ['CreatePromise', 'CreatePromiseAndTask', 'CompletePromise', 'ClaimTask', 'CompleteTask', 'HeartbeatTasks', 'CreateCallback'],
                          (30, 150), (600, 200), 'C07,C08', ['-routed', '70', '-fail', '10', '-crash', '1'], (200, 200)),
@@ -82,6 +85,7 @@ PROPS = {
     ),
     'C08': dict(
         modules=['Resonate.Properties.C08'],
+        pin_filter=r'awaitLoops|coroutineCmds|tick|queueShapes',
         tie_filter=r'task|promiseInsert|promiseUpdate|callback|shape|wiring|uniques',
         harness=[sysdiff('sysdiff-dispatch', ['CreatePromise', 'CreatePromise', 'CreatePromiseAndTask', 'CompletePromise', 'ClaimTask', 'CompleteTask', 'CreateCallback', 'CreateSubscription', 'HeartbeatTasks'],
                          (30, 150), (800, 200), 'C08,C07,C05,C12', ['-routed', '70', '-fail', '20', '-crash', '1', '-smallcfg', '-known', 'F5'], (250, 200)),
@@ -93,6 +97,7 @@ PROPS = {
     ),
     'C09': dict(
         modules=['Resonate.Properties.C09'],
+        pin_filter=r'awaitLoops|coroutineCmds|tick|queueShapes',
         tie_filter=r'lock|shape|wiring|uniques',
         harness=[with_monitor(storediff('storediff-locks', LOCK_KINDS + ['HeartbeatTasks', 'HeartbeatTasks', 'ReadLock'], (30, 40), (800, 50), (300, 50)), 'C09'),
                  sysdiff('sysdiff-locks', ['AcquireLock', 'ReleaseLock', 'HeartbeatLocks'], (20, 120), (500, 150), 'C09', ['-fail', '10', '-crash', '1'], (150, 150))],
@@ -102,6 +107,7 @@ PROPS = {
     ),
     'C02': dict(
         modules=['Resonate.Properties.C02'],
+        pin_filter=r'awaitLoops|coroutineCmds|tick|queueShapes',
         tie_filter=r'promise(Select_|Insert|Update)|callbackInsert|shape|wiring|uniques',
         harness=[sysdiff('sysdiff-linearizable', None, (25, 120), (600, 150), 'C02,C01,C03,C07', ['-routed', '40', '-fail', '15', '-crash', '1', '-known', 'F5'], (200, 150)),
                  sysdiff('sysdiff-linearizable-focus', ['ReadPromise', 'CreatePromise', 'CreatePromiseAndTask', 'CompletePromise', 'CreateCallback', 'CreateSubscription', 'ClaimTask', 'CompleteTask', 'AcquireLock', 'ReleaseLock'],
@@ -120,6 +126,7 @@ PROPS = {
     ),
     'C03': dict(
         modules=['Resonate.Properties.C03'],
+        pin_filter=r'awaitLoops|coroutineCmds|tick|queueShapes',
         tie_filter=r'promise(Insert|Update|Select_)|taskInsert_|shape|wiring|uniques',
         harness=[sysdiff('sysdiff-retries', ['CreatePromise', 'CreatePromise', 'CreatePromiseAndTask', 'CompletePromise', 'CompletePromise', 'ReadPromise'],
                          (30, 150), (800, 150), 'C03,C01,C04,C07', ['-routed', '40', '-fail', '25', '-crash', '1', '-known', 'F5'], (250, 150)),
@@ -131,6 +138,7 @@ PROPS = {
     ),
     'C04': dict(
         modules=['Resonate.Properties.C04'],
+        pin_filter=r'awaitLoops|coroutineCmds|tick|queueShapes',
         tie_filter=r'promise(SelectAll|Update|Select_|Search)|shape|wiring',
         harness=[sysdiff('sysdiff-timeouts', ['ReadPromise', 'SearchPromises', 'CreatePromise', 'CreatePromiseAndTask', 'CompletePromise'],
                          (30, 150), (800, 150), 'C04,C01', ['-routed', '20', '-fail', '10', '-crash', '1', '-smallcfg'], (250, 150)),
@@ -141,6 +149,7 @@ PROPS = {
     ),
     'C05': dict(
         modules=['Resonate.Properties.C05'],
+        pin_filter=r'awaitLoops|coroutineCmds|tick|queueShapes',
         tie_filter=r'callback|taskInsertAll|taskCompleteByRootId|promiseUpdate|promiseSelect_|shape|wiring|uniques',
         harness=[sysdiff('sysdiff-callbacks', ['ReadPromise', 'CreatePromise', 'CompletePromise', 'CreateCallback', 'CreateSubscription', 'SearchPromises'],
                          (30, 120), (600, 150), 'C05,C01,C04', ['-routed', '20', '-fail', '15', '-crash', '2', '-known', 'F5'], (200, 150)),
@@ -155,17 +164,21 @@ PROPS = {
     ),
     'C10': dict(
         modules=['Resonate.Properties.C10'],
+        pin_filter=r'awaitLoops|coroutineCmds|tick|queueShapes',
         tie_filter=r'schedule|promiseInsert|taskInsert_|shape|wiring|uniques',
         harness=[sysdiff('sysdiff-schedules', ['CreateSchedule', 'CreateSchedule', 'DeleteSchedule', 'ReadSchedule', 'SearchSchedules', 'CreatePromise', 'ReadPromise'],
                          (25, 200), (600, 250), 'C10,C01', ['-routed', '40', '-fail', '15', '-crash', '1', '-hostile', '-smallcfg', '-known', 'F5'], (200, 250)),
-                 storediff('storediff-schedules', SCHEDULE_KINDS + ['CreatePromise'], (20, 30), (500, 40))],
-        rule=SYS_RULE + '; schedules on second-grid cron expressions with clock steps that jump over 0..5 occurrences per tick, create / delete racing the firing cycle, a user creating the same promise id, schedule batch sizes 1..100, failures and crashes mid-cycle, markup characters in schedule ids and malformed id templates; the C10 monitor checks on every committed batch that a schedule row changes only by one firing (last_run_time = the occurrence, next_run_time = the NEXT grid point after it, other fields untouched) and that the promise of that occurrence exists with the templated id, timeout = occurrence + promise timeout, parameter and marker tags',
+                 storediff('storediff-schedules', SCHEDULE_KINDS + ['CreatePromise'], (20, 30), (500, 40)),
+                 dict(bin='cronref', name='cronref', quick=['-cases', '4000'], thorough=['-cases', '80000'], search=['-cases', '20000'])],
+        rule='cronref: util.Next (robfig/cron behind the schedule coroutines) against a reference evaluator written from the meaning of a cron expression, for five- and six-field expressions built from *, */k and numbers, '
+             'drawn interleaved in one process and including pairs that differ only in where their blanks are: the result must be the first instant strictly after t at which the expression matches; ' + SYS_RULE + '; schedules on second-grid cron expressions with clock steps that jump over 0..5 occurrences per tick, create / delete racing the firing cycle, a user creating the same promise id, schedule batch sizes 1..100, failures and crashes mid-cycle, markup characters in schedule ids and malformed id templates; the C10 monitor checks on every committed batch that a schedule row changes only by one firing (last_run_time = the occurrence, next_run_time = the NEXT grid point after it, other fields untouched) and that the promise of that occurrence exists with the templated id, timeout = occurrence + promise timeout, parameter and marker tags',
         assumptions=['cron is abstract in the theorems (IsNext); robfig/cron is validated against the grid model only for the expressions the harness uses',
                      'completion batch size large enough for all router completions of a cycle to arrive in one tick (harness discipline)'],
         trusted_base=['schedule coroutines modelled by hand and tied by sysdiff; Model/Env.lean (cron grid, id template subset)'],
     ),
     'C20': dict(
         modules=['Resonate.Properties.C20'],
+        pin_filter=r'awaitLoops|coroutineCmds|tick|queueShapes',
         tie_filter=r'Insert_row|_set|Select_where|_proj|shape|wiring',
         harness=[dict(bin='codecdiff', name='codecdiff', quick=['-cases', '1500'], thorough=['-cases', '60000'], search=['-cases', '20000']),
                  dict(bin='frontdiff', name='frontdiff', quick=['-facts', '{gen}/gofacts.json'], thorough=['-facts', '{gen}/gofacts.json'], search=['-facts', '{gen}/gofacts.json']),
@@ -198,6 +211,7 @@ PROPS = {
     ),
     'C19': dict(
         modules=['Resonate.Properties.C19'],
+        pin_filter=r'awaitLoops|coroutineCmds|tick|queueShapes',
         tie_filter=r'^$',
         harness=[dict(bin='routesend', name='routesend', quick=['-cases', '2000'], thorough=['-cases', '40000'], search=['-cases', '10000']),
                  sysdiff('sysdiff-handoff', ['CreatePromise', 'CreatePromiseAndTask', 'CompletePromise', 'CreateCallback', 'CreateSubscription', 'ClaimTask'],
@@ -218,6 +232,7 @@ PROPS = {
     ),
     'C11': dict(
         modules=['Resonate.Properties.C11'],
+        pin_filter=r'awaitLoops|coroutineCmds|tick|queueShapes',
         tie_filter=r'promiseSelectAll|promiseUpdate|taskSelectAll|taskUpdate|lockTimeout|scheduleSelectAll|scheduleUpdate|taskSelectEnqueueable|shape|wiring',
         harness=[sysdiff('sysdiff-converge', None, (20, 100), (400, 150), 'C11,C01', ['-smallcfg', '-routed', '50', '-fail', '10', '-crash', '1', '-known', 'F16,F18,F19,F5'], (120, 120)),
                  sysdiff('sysdiff-converge-collide', ['CreatePromise', 'CompletePromise', 'CreateCallback', 'CreateSubscription'], (8, 120), (150, 150), 'C11',
@@ -236,6 +251,7 @@ PROPS = {
     ),
     'C12': dict(
         modules=['Resonate.Properties.C12'],
+        pin_filter=r'awaitLoops|coroutineCmds|tick|queueShapes',
         tie_filter=r'^$',
         harness=[sysdiff('sysdiff-backpressure', None, (25, 120), (600, 150), 'C12,C01', ['-smallcfg', '-shutdown', '50', '-fail', '15', '-crash', '1', '-routed', '40', '-known', 'F5'], (200, 150)),
                  dict(bin='stackrun', name='stackrun', quick=['-rounds', '60'], thorough=['-rounds', '1500'], search=['-rounds', '400'])],
@@ -253,6 +269,7 @@ PROPS = {
     ),
     'C13': dict(
         modules=['Resonate.Properties.C13'],
+        pin_filter=r'sites|awaitLoops|coroutineCmds|tick|queueShapes',
         tie_filter=r'shape|wiring|uniques|Insert_row|_where',
         harness=[dict(bin='frontdiff', name='frontdiff', quick=['-facts', '{gen}/gofacts.json'], thorough=['-facts', '{gen}/gofacts.json'], search=['-facts', '{gen}/gofacts.json']),
                  sysdiff('sysdiff-hostile', None, (20, 120), (500, 150), 'C01,C05,C08', ['-routed', '50', '-hostile', '-fail', '10', '-crash', '2', '-known', 'F5'], (150, 150)),
@@ -280,6 +297,7 @@ PROPS = {
     ),
     'C14': dict(
         modules=['Resonate.Properties.C14'],
+        pin_filter=r'awaitLoops|coroutineCmds|tick|queueShapes',
         tie_filter=r'(promise|schedule)(Search|Insert|Update|Delete|Select)|shape|wiring|uniques',
         harness=[with_monitor(storediff('storediff-search', ['SearchPromises', 'SearchPromises', 'CreatePromise', 'UpdatePromise', 'SearchSchedules', 'CreateSchedule', 'DeleteSchedule', 'CreatePromiseAndTask'], (40, 40), (1000, 60), (300, 60)), 'C14,C01'),
                  sysdiff('sysdiff-search', ['SearchPromises', 'SearchSchedules', 'CreatePromise', 'CompletePromise', 'CreateSchedule', 'DeleteSchedule'], (20, 120), (400, 150), 'C01,C14', ['-fail', '10'], (150, 150)),
